@@ -324,3 +324,19 @@ func (v *OVal) canon(b *strings.Builder, sortKeys bool) {
 		b.WriteByte('}')
 	}
 }
+
+// Items is the nil-safe element list of an array value.
+func (v *OVal) Items() []*OVal {
+	if v == nil || v.Kind != OArr {
+		return nil
+	}
+	return v.Arr
+}
+
+// Fields is the nil-safe member list of an object value.
+func (v *OVal) Fields() []OKV {
+	if v == nil || v.Kind != OObj {
+		return nil
+	}
+	return v.Obj
+}
